@@ -505,3 +505,365 @@ Qed.
 Lemma k2_final : let w := prun (world0 false k2_nodes) k2_ops in
   w_poolobjs w !! L "p1" = Some 1 ∧ pool_count (w_ipam w) (L "p1") = 2%nat.
 Proof. vm_compute. done. Qed.
+
+(** * the release paths (queued pod event, resync, API release) never add an IP to a pool *)
+Definition wle (X : str) (w w' : world) : Prop := pfx_le X (w_ipam w) (w_ipam w').
+
+Lemma wle_refl X w : wle X w w.
+Proof. apply pfx_le_refl. Qed.
+Lemma wle_trans X w1 w2 w3 : wle X w1 w2 → wle X w2 w3 → wle X w1 w3.
+Proof. apply pfx_le_trans. Qed.
+
+Lemma release_key_wle X w key o fl : wle X w (release_key w key o fl).1.
+Proof.
+  destruct (release_key w key o fl) as [w' r] eqn:E. cbn [fst].
+  destruct (release_key_frame _ _ _ _ _ _ E) as [_ Hy]. intros y e' He' Hp.
+  destruct (Hy y) as [Ey|(e & He & Hk & Hn)]; [|congruence]. exists e'. split; [congruence|done].
+Qed.
+
+Lemma reserve_key_wle X w key prefix o fl : (has_prefix X prefix = true → has_prefix X key = true) →
+  wle X w (reserve_key w key prefix o fl).1.
+Proof.
+  intros Himp. destruct (reserve_key w key prefix o fl) as [w' r] eqn:E. cbn [fst].
+  destruct (reserve_key_frame _ _ _ _ _ _ _ E) as [_ Hy]. intros y e' He' Hp.
+  destruct (Hy y) as [Ey|(e & e2 & He & Hk & He2 & Hk2 & _)].
+  - exists e'. split; [congruence|done].
+  - exists e. split; [done|]. rewrite Hk. apply Himp. rewrite <- Hk2. congruence.
+Qed.
+
+Lemma reserve_ip_same_keys s key a order nfail : keys_eq s (reserve_ip s key key a order nfail).1.
+Proof.
+  destruct (reserve_ip s key key a order nfail) as [s' ra] eqn:Er. cbn [fst].
+  destruct (reserve_ip_spec _ _ _ _ _ _ _ _ Er) as (_ & _ & Hy). intros y.
+  destruct (Hy y) as [E|(e & t & He & Hk & He')]; [by rewrite E|]. rewrite He, He'. cbn. by rewrite Hk.
+Qed.
+
+Lemma release_pfx_le X s key x fail : pfx_le X s (release s key x fail).1.
+Proof.
+  destruct (release s key x fail) as [s' ra] eqn:Er. cbn [fst].
+  destruct (release_spec _ _ _ _ _ _ Er) as [(_ & e & He & Hk & Ha & _)|[_ ->]]; [|apply pfx_le_refl].
+  intros y e' He' Hp. rewrite Ha in He'. destruct (decide (y = x)) as [->|Hne].
+  - by rewrite lookup_delete in He'.
+  - rewrite lookup_delete_ne in He' by done. by exists e'.
+Qed.
+
+Lemma unassign_loop_ipam fl order : ∀ w idx, w_ipam (unassign_loop w order idx fl).1 = w_ipam w.
+Proof.
+  induction order as [|x rest IH]; intros w idx; cbn [unassign_loop]; [done|].
+  destruct (i_alloc (w_ipam w) !! x) as [e|]; [|done]. destruct (bool_decide _); [done|]. by rewrite IH.
+Qed.
+
+Definition pfx_imp (X : str) (k : Keys.keyobj) : Prop :=
+  has_prefix X (Keys.pool_prefix k) = true → has_prefix X (Keys.ko_key k) = true.
+
+Lemma unbind_dp_wle X w k policy o fl : pfx_imp X k → wle X w (unbind_dp w k policy o fl).1.
+Proof.
+  intros Himp. unfold unbind_dp.
+  destruct (policy =? 0); [apply release_key_wle|].
+  destruct (policy =? 2).
+  { destruct (str_eqb _ _); [apply wle_refl|by apply reserve_key_wle]. }
+  destruct (_ =? 0); [apply release_key_wle|].
+  destruct (_ <? _); [apply release_key_wle|].
+  destruct (str_eqb _ _); [apply wle_refl|by apply reserve_key_wle].
+Qed.
+
+Lemma unbind_nondp_wle X w k policy o fl : wle X w (unbind_nondp w k policy o fl).1.
+Proof.
+  unfold unbind_nondp.
+  destruct (_ || _)%bool; [apply release_key_wle|].
+  destruct (policy =? 2); [by apply reserve_key_wle|].
+  destruct (policy =? 1); [|apply wle_refl].
+  destruct (ko_is_sts k); [|apply wle_refl].
+  destruct (w_sts w !! _); [|apply release_key_wle].
+  destruct (pod_index _); [|apply wle_refl].
+  destruct (_ <? _); [apply release_key_wle|by apply reserve_key_wle].
+Qed.
+
+Lemma unbind_any_wle X w k policy o fl : (ko_is_dp k = true → pfx_imp X k) →
+  wle X w (if ko_is_dp k then unbind_dp w k policy o fl else unbind_nondp w k policy o fl).1.
+Proof. intros H. destruct (ko_is_dp k); [apply unbind_dp_wle; by apply H|apply unbind_nondp_wle]. Qed.
+
+Lemma pfx_imp_pod X q : wf_pod q → pfx_imp X (keyobj_of q).
+Proof. intros W H. eapply has_prefix_trans; [exact H|]. by apply pod_key_has_pool_prefix. Qed.
+
+Lemma pfx_imp_parse P key : P ≠ [] → ko_is_dp (Keys.parse_key key) = true → pfx_imp (pool_key P) (Keys.parse_key key).
+Proof.
+  intros HP Hdp H. rewrite parse_key_key.
+  assert (∀ (k : Keys.keyobj), Keys.ko_pool k = [] → ko_is_dp k = true → has_prefix (pool_key P) (Keys.pool_prefix k) = true → False) as Hnopool.
+  { intros k Hpool Hd Hpre. unfold Keys.pool_prefix in Hpre. rewrite Hpool in Hpre. cbn [Keys.is_empty] in Hpre.
+    unfold ko_is_dp in Hd. apply str_eqb_eq in Hd. rewrite Hd, pool_key_eq in Hpre by done. discriminate Hpre. }
+  unfold Keys.parse_key in *.
+  destruct (has_prefix Keys.pool_pfx key) eqn:Epp.
+  - apply has_prefix_inv in Epp as [r ->]. change (skipn 6 (Keys.pool_pfx ++ r)) with r in *.
+    destruct (cut Keys.us r) as [[pool rest]|] eqn:Ec; [|discriminate Hdp].
+    destruct (Keys.resolve_pod_key rest) as [[[ty ap] pd] ns].
+    destruct pool as [|c pool'].
+    + exfalso. eapply Hnopool; [|exact Hdp|exact H]. done.
+    + apply cut_some in Ec as [-> _]. eapply has_prefix_trans; [exact H|].
+      unfold Keys.pool_prefix. cbn [Keys.ko_pool Keys.is_empty].
+      replace (Keys.pool_pfx ++ (c :: pool') ++ Keys.us :: rest)%list with ((Keys.pool_pfx ++ (c :: pool') ++ [Keys.us]) ++ rest)%list
+        by (rewrite <- !app_assoc; reflexivity).
+      apply has_prefix_app.
+  - destruct (Keys.resolve_pod_key key) as [[[ty ap] pd] ns]. exfalso. eapply Hnopool; [|exact Hdp|exact H]. done.
+Qed.
+
+(** a queued pod event *)
+Lemma unbind_section_wle X w q o oun fl : wf_pod q → wle X w (unbind_section true w q o oun fl).1.
+Proof.
+  intros W. unfold unbind_section. cbn [andb].
+  destruct (existsb _ _); [apply wle_refl|].
+  match goal with |- wle _ _ (match ?r with _ => _ end).1 => set (r0 := r) end.
+  assert (w_ipam r0.1 = w_ipam w) as Hr0.
+  { unfold r0. destruct (w_provider w); [|done].
+    destruct (_ && _ && _)%bool; [by rewrite unassign_loop_ipam|].
+    destruct (f_cloud fl); [|done].
+    destruct (_ && _ && _)%bool; [by rewrite unassign_loop_ipam|done]. }
+  destruct r0 as [w1 [| |]]; cbn [fst] in *; try (unfold wle; rewrite Hr0; apply pfx_le_refl).
+  eapply wle_trans; [unfold wle; rewrite Hr0; apply pfx_le_refl|].
+  apply unbind_any_wle. intros _. by apply pfx_imp_pod.
+Qed.
+
+Lemma event_step_wle X w n o oun fl : WInv w → wle X w (pstep w (PEvent n o oun fl)).1.
+Proof.
+  intros HW. cbn [pstep]. destruct (w_queue w !! n) as [q|] eqn:Eq; [|apply wle_refl].
+  assert (wf_pod q) as W.
+  { pose proof (wi_queue w HW) as HQ. rewrite Forall_forall in HQ. apply (HQ q). by eapply elem_of_list_lookup_2. }
+  pose proof (unbind_section_wle X w q o oun fl W) as H.
+  destruct (unbind_section true w q o oun fl) as [w' [| |]]; cbn [fst] in *; done.
+Qed.
+
+(** one resync item *)
+Lemma resync_step1_wle X w ip (e : entry) ocl fl (mk : ipam * ares → world → world * sres) :
+  (∀ r w1, w_ipam (mk r w1).1 = w_ipam w1 ∨ w_ipam (mk r w1).1 = r.1) →
+  wle X w (if w_provider w && negb (Keys.is_empty (e_node e)) then
+             if bool_decide (f_cloud fl = Some 0%nat) then (w, SErr)
+             else mk (reserve_ip (w_ipam (cloud_unassign w ip (e_node e))) (e_key e) (e_key e) free_entry_attr ocl None)
+                     (cloud_unassign w ip (e_node e))
+           else (w, SOk)).1.
+Proof.
+  intros Hmk. destruct (_ && _)%bool; [|apply wle_refl]. destruct (bool_decide _); [apply wle_refl|].
+  unfold wle. destruct (Hmk (reserve_ip (w_ipam (cloud_unassign w ip (e_node e))) (e_key e) (e_key e) free_entry_attr ocl None)
+                            (cloud_unassign w ip (e_node e))) as [->| ->].
+  - apply pfx_le_refl.
+  - apply keys_eq_pfx_le. apply (reserve_ip_same_keys (w_ipam w)).
+Qed.
+
+Lemma resync_section_wle P w ip o ocl fl : P ≠ [] → wle (pool_key P) w (resync_section w ip o ocl fl).1.
+Proof.
+  intros HP. unfold resync_section. destruct (i_alloc (w_ipam w) !! ip) as [e|] eqn:He; [|apply wle_refl].
+  destruct (resync_skip _ _); [apply wle_refl|].
+  destruct (pod_running _ _ _ _); [apply wle_refl|].
+  match goal with |- wle _ _ (match ?r with _ => _ end).1 => set (s1 := r) end.
+  assert (wle (pool_key P) w s1.1) as Hs1.
+  { unfold s1.
+    apply (resync_step1_wle (pool_key P) w ip e ocl fl
+             (λ r w1, match r.2 with AStuck => (w1, SStuck) | _ => (set_ipam w1 r.1, SOk) end)).
+    intros r w1. destruct r.2; cbn [fst set_ipam w_ipam]; auto. }
+  destruct s1 as [w1 [| |]]; cbn [fst] in *; try done.
+  eapply wle_trans; [exact Hs1|]. apply unbind_any_wle. intros Hdp. by apply pfx_imp_parse.
+Qed.
+
+Lemma api_release_section_wle X w k ip ocl fl : wle X w (api_release_section w k ip ocl fl).1.
+Proof.
+  unfold api_release_section. destruct (by_ip (w_ipam w) ip) as [e|] eqn:He.
+  2:{ destruct (Keys.is_empty _); apply wle_refl. }
+  destruct (negb _).
+  { destruct (Keys.is_empty _); apply wle_refl. }
+  destruct (pod_running _ _ _ _); [apply wle_refl|].
+  match goal with |- wle _ _ (match ?r with _ => _ end).1 => set (s1 := r) end.
+  assert (wle X w s1.1) as Hs1.
+  { unfold s1.
+    apply (resync_step1_wle X w ip e ocl fl
+             (λ r w1, match r.2 with AStuck => (w1, SStuck) | AOk => (set_ipam w1 r.1, SOk) | _ => (set_ipam w1 r.1, SErr) end)).
+    intros r w1. destruct r.2; cbn [fst set_ipam w_ipam]; auto. }
+  destruct s1 as [w1 [| |]]; cbn [fst] in *; try done.
+  eapply wle_trans; [exact Hs1|]. unfold wle. cbn [set_ipam w_ipam fst]. apply release_pfx_le.
+Qed.
+
+Lemma pool_count_release_steps_l w o P : WInv w → P ≠ [] →
+  (match o with PEvent _ _ _ _ | PResync _ _ _ _ | PApiRelease _ _ _ _ => True | _ => False end) →
+  (pool_count (w_ipam (pstep w o).1) P <= pool_count (w_ipam w) P)%nat.
+Proof.
+  intros HW HP Ho. rewrite !pool_count_cnt. apply pfx_le_cnt.
+  destruct o as [e|key nodes orc fl|ns name uid node orc fl|n orc oun fl|ip orc ocl fl|k ip ocl fl|key fl|io|conf]; try done.
+  - by apply event_step_wle.
+  - cbn [pstep]. pose proof (resync_section_wle P w ip orc ocl fl HP) as H.
+    destruct (resync_section w ip orc ocl fl) as [w' [| |]]; done.
+  - cbn [pstep]. pose proof (api_release_section_wle (pool_key P) w k ip ocl fl) as H.
+    destruct (api_release_section w k ip ocl fl) as [w' [| |]]; done.
+Qed.
+
+(** * Bind *)
+Lemma update_attr_keys_eq s key x a fail : keys_eq s (update_attr s key x a fail).1 ∧ i_pools (update_attr s key x a fail).1 = i_pools s.
+Proof.
+  destruct (update_attr s key x a fail) as [s' ra] eqn:E. cbn [fst].
+  apply update_attr_spec in E as [(_ & e & He & Hk & Hal & _ & Hp)|[_ ->]]; [|split; [apply keys_eq_refl|done]].
+  split; [|done]. intros y. rewrite Hal. destruct (decide (y = x)) as [->|Hne].
+  - rewrite lookup_insert, He. cbn. by rewrite Hk.
+  - by rewrite lookup_insert_ne.
+Qed.
+
+Lemma assign_loop_keys_eq key node a reused fl ips : ∀ w idx ridx,
+  keys_eq (w_ipam w) (w_ipam (assign_loop w key node a ips reused idx ridx fl).1) ∧
+  i_pools (w_ipam (assign_loop w key node a ips reused idx ridx fl).1) = i_pools (w_ipam w).
+Proof.
+  induction ips as [|x rest IH]; intros w idx ridx; cbn [assign_loop]; [split; [apply keys_eq_refl|done]|].
+  destruct (w_provider w && bool_decide (f_cloud fl = Some idx)); [split; [apply keys_eq_refl|done]|].
+  set (w1 := if w_provider w then cloud_assign w x node else w).
+  assert (w_ipam w1 = w_ipam w) as Ei1 by (unfold w1; by destruct (w_provider w)).
+  clearbody w1.
+  destruct (existsb (N.eqb x) reused).
+  - destruct (update_attr_keys_eq (w_ipam w1) key x a (bool_decide (f_update fl = Some ridx))) as [Hk Hp].
+    destruct (update_attr (w_ipam w1) key x a (bool_decide (f_update fl = Some ridx))) as [i' ra]. cbn [fst] in *.
+    destruct ra; cbn [fst]; try (rewrite Ei1; split; [apply keys_eq_refl|done]).
+    destruct (IH (set_ipam w1 i') (S idx) (S ridx)) as [IH1 IH2]. cbn [set_ipam w_ipam] in *. rewrite <- Ei1. split.
+    + by eapply keys_eq_trans.
+    + congruence.
+  - destruct (IH w1 (S idx) ridx) as [IH1 IH2]. rewrite <- Ei1. done.
+Qed.
+
+Lemma api_bind_ipam w key uid node ips inj : w_ipam (api_bind w key uid node ips inj).1 = w_ipam w.
+Proof.
+  unfold api_bind. destruct inj; [done|]. destruct (w_pods w !! key); [|done].
+  destruct (negb _); [done|]. destruct (negb _); done.
+Qed.
+
+(** the tail of [bind_section] after the allocation *)
+Lemma bind_tail_keys_eq w1 l ns name uid node ips reused fl a :
+  let res := match assign_loop w1 (pod_key l) node a ips reused 0 0 fl with
+             | (w2, SOk) =>
+                 match api_bind w2 (ns, name) uid node ips (f_bind fl =? 1) with
+                 | (w3, BindOk) => (w3, BOk ips)
+                 | (w3, BindNotFound) => (set_queue w3 (w_queue w3 ++ [l]), BErr)
+                 | (w3, BindFail) => (w3, BErr)
+                 end
+             | (w2, _) => (w2, BErr)
+             end in
+  keys_eq (w_ipam w1) (w_ipam res.1) ∧ i_pools (w_ipam res.1) = i_pools (w_ipam w1).
+Proof.
+  cbv zeta. destruct (assign_loop_keys_eq (pod_key l) node a reused fl ips w1 0%nat 0%nat) as [Hk Hp].
+  destruct (assign_loop w1 (pod_key l) node a ips reused 0 0 fl) as [w2 r2]. cbn [fst] in *.
+  destruct r2; try done.
+  pose proof (api_bind_ipam w2 (ns, name) uid node ips (f_bind fl =? 1)) as Hb.
+  destruct (api_bind w2 (ns, name) uid node ips (f_bind fl =? 1)) as [w3 out]. cbn [fst] in *.
+  destruct out; cbn [fst set_queue w_ipam]; rewrite Hb; done.
+Qed.
+
+(** no growth of any pool when the pod's key already holds an IP *)
+Lemma bind_holding_keys_eq w ns name uid node o fl l w' r :
+  w_lister w !! (ns, name) = Some l → pd_ranges l = [] →
+  (∃ x e, i_alloc (w_ipam w) !! x = Some e ∧ e_key e = pod_key l) →
+  bind_section true true w ns name uid node o fl = (w', r) →
+  keys_eq (w_ipam w) (w_ipam w').
+Proof.
+  intros El Hr (x0 & e0 & He0 & Hk0) H. unfold bind_section in H. rewrite El in H. cbn [andb] in H.
+  match type of H with (if negb ?X then _ else _) = _ => destruct X end; cbn [negb] in H;
+    [|inversion H; subst; apply keys_eq_refl].
+  cbv zeta in H. rewrite Hr in H.
+  destruct (first_of_key (w_ipam w) (pod_key l) o) as [[x|]|] eqn:Ef; [| |inversion H; subst; apply keys_eq_refl].
+  - cbn [map concat combine app fst snd] in H.
+    match type of H with (if ?X then _ else _) = _ => destruct X end; [inversion H; subst; apply keys_eq_refl|].
+    pose proof (bind_tail_keys_eq w l ns name uid node [x] [x] fl {| a_policy := policy_of l; a_node := node; a_uid := pd_uid l |}) as [Ht _].
+    cbv zeta in Ht. rewrite H in Ht. exact Ht.
+  - exfalso. unfold first_of_key in Ef. destruct (by_key (w_ipam w) (pod_key l)) as [|kv rest] eqn:Ebk.
+    + assert (In (x0, e0) (by_key (w_ipam w) (pod_key l))) as Hin by (by apply by_key_spec). by rewrite Ebk in Hin.
+    + destruct (o_first o); [|done]. destruct (i_alloc (w_ipam w) !! n); [|done]. by destruct (str_eqb _ _).
+Qed.
+
+Lemma chg_cnt_other (K : str → Prop) key uid i i' X : PluginBindP.chg K key uid i i' → has_prefix X key = false →
+  (∀ k, K k → has_prefix X k = false) → cnt i' X = cnt i X.
+Proof.
+  intros Hc Hk HK. apply Nat.le_antisymm; apply pfx_le_cnt.
+  - intros y e' He' Hp. destruct (Hc y) as [E|(e2 & He2 & Hk2 & _)].
+    + exists e'. split; [congruence|done].
+    + rewrite He2 in He'. simplify_eq. congruence.
+  - intros y e He Hp. destruct (Hc y) as [E|(e2 & He2 & Hk2 & _ & Hold)].
+    + exists e. split; [congruence|done].
+    + rewrite (HK _ (Hold e He)) in Hp. done.
+Qed.
+
+Lemma bind_other_cnt w ns name uid node o fl w' r l X :
+  WInv w → uid ≠ [] → w_lister w !! (ns, name) = Some l → has_prefix X (pod_key l) = false →
+  bind_section true true w ns name uid node o fl = (w', r) →
+  cnt (w_ipam w') X = cnt (w_ipam w) X.
+Proof.
+  intros HW Hu El Hnp H.
+  apply bind_section_frame in H; [|done..].
+  destruct H as [[-> _]|(l' & w2 & El' & _ & _ & _ & _ & _ & _ & Hc & Hrest)]; [done|].
+  assert (l' = l) as -> by congruence.
+  assert (w_ipam w' = w_ipam w2) as ->.
+  { destruct Hrest as [[-> _]|(ips & w3 & out & Hb & _ & Hout)]; [done|].
+    pose proof (api_bind_ipam w2 (ns, name) uid node ips (f_bind fl =? 1)) as Hi. rewrite Hb in Hi. cbn [fst] in Hi.
+    destruct out; destruct Hout as [-> _]; done. }
+  eapply chg_cnt_other; [exact Hc|done|]. by intros k <-.
+Qed.
+
+Lemma bind_no_pod w ns name uid node o fl : w_lister w !! (ns, name) = None →
+  bind_section true true w ns name uid node o fl = (w, BErr).
+Proof. intros El. unfold bind_section. by rewrite El. Qed.
+
+(** bind of a pod without pool annotation, or of a pool pod that already holds an IP, leaves every pool's count unchanged *)
+Definition bind_no_alloc (w : world) (ns name : str) : Prop :=
+  ∀ l, w_lister w !! (ns, name) = Some l → pd_pool l ≠ [] →
+       pd_ranges l = [] ∧ ∃ x e, i_alloc (w_ipam w) !! x = Some e ∧ e_key e = pod_key l.
+
+Lemma bind_c07_cnt w ns name uid node o fl w' r P :
+  WInv w → uid ≠ [] → bind_no_alloc w ns name → P ≠ [] →
+  bind_section true true w ns name uid node o fl = (w', r) →
+  pool_count (w_ipam w') P = pool_count (w_ipam w) P.
+Proof.
+  intros HW Hu Hna HP H. rewrite !pool_count_cnt.
+  destruct (w_lister w !! (ns, name)) as [l|] eqn:El; [|rewrite bind_no_pod in H by done; by inversion H].
+  destruct (wi_lister w HW _ _ El) as [_ W].
+  destruct (decide (pd_pool l = [])) as [Ep|Ep].
+  - apply (bind_other_cnt w ns name uid node o fl w' r l); try done. by apply pod_key_nopool.
+  - destruct (Hna l El Ep) as [Hr Hhold]. apply keys_eq_cnt. by eapply bind_holding_keys_eq.
+Qed.
+
+Lemma bind_alloc_pools w key node rss slots a o fl w1 oips : Inv (w_ipam w) →
+  bind_alloc w key node rss slots a o fl = Some (w1, oips) → i_pools (w_ipam w1) = i_pools (w_ipam w).
+Proof.
+  intros HI H. unfold bind_alloc in H. cbv zeta in H.
+  match type of H with (if ?X then _ else _) = _ => destruct X end; [|by inversion H].
+  destruct (w_nodes w !! node) as [nip|]; [|by inversion H].
+  destruct (node_subnet (w_ipam w) nip) as [sn|]; [|by inversion H].
+  match type of H with (match ?X with [] => _ | _ :: _ => _ end) = _ => destruct X as [|rs0 missing'] end.
+  - destruct (alloc_in_subnet (w_ipam w) key sn a (o_choice o) (bool_decide (f_store fl = Some 0%nat))) as [[i' ra] ox] eqn:Ea.
+    apply alloc_in_subnet_spec in Ea as [(-> & x & -> & _ & _ & _ & _ & Hp)|(Hne & -> & ->)].
+    + by inversion H.
+    + destruct ra; by inversion H.
+  - destruct (alloc_ranges (w_ipam w) key sn (rs0 :: missing') a (f_store fl)) as [[i' ra] fresh] eqn:Ea.
+    apply alloc_ranges_spec in Ea as [(-> & _ & _ & _ & _ & _ & Hp)|(Hne & _ & _ & _ & Hp)]; [| |done].
+    + by inversion H.
+    + destruct ra; by inversion H.
+Qed.
+
+Lemma bind_section_pools w ns name uid node o fl : Inv (w_ipam w) →
+  i_pools (w_ipam (bind_section true true w ns name uid node o fl).1) = i_pools (w_ipam w).
+Proof.
+  intros HI. unfold bind_section.
+  destruct (w_lister w !! (ns, name)) as [l|] eqn:El; [|done].
+  cbn [andb]. match goal with |- context [if negb ?X then _ else _] => destruct X end; cbn [negb]; [|done].
+  cbv zeta.
+  match goal with |- context [match ?X with Some _ => _ | None => (w, BStuck) end] => destruct X as [slots|] end; [|done].
+  match goal with |- context [if ?X then (w, BErr) else _] => destruct X end; [done|].
+  set (a := {| a_policy := policy_of l; a_node := node; a_uid := pd_uid l |}) in *.
+  change (i_pools (w_ipam (match bind_alloc w (pod_key l) node (pd_ranges l) slots a o fl with
+          | Some (w1, Some ips) =>
+              match assign_loop w1 (pod_key l) node a ips (somes slots) 0 0 fl with
+              | (w2, SOk) =>
+                  match api_bind w2 (ns, name) uid node ips (f_bind fl =? 1) with
+                  | (w3, BindOk) => (w3, BOk ips)
+                  | (w3, BindNotFound) => (set_queue w3 (w_queue w3 ++ [l]), BErr)
+                  | (w3, BindFail) => (w3, BErr)
+                  end
+              | (w2, _) => (w2, BErr)
+              end
+          | Some (w1, None) => (w1, BErr)
+          | None => (w, BStuck)
+          end).1) = i_pools (w_ipam w)).
+  destruct (bind_alloc w (pod_key l) node (pd_ranges l) slots a o fl) as [[w1 oips]|] eqn:Ealloc; [|done].
+  apply bind_alloc_pools in Ealloc; [|done].
+  destruct oips as [ips|]; [|done].
+  destruct (bind_tail_keys_eq w1 l ns name uid node ips (somes slots) fl a) as [_ Hp]. cbv zeta in Hp. congruence.
+Qed.
